@@ -268,6 +268,14 @@ def r5_sibling_cursor_advance(ctx, rule):
         fn = ctx.fn(q)
         found = False
         for node in walk_local(fn):
+            if isinstance(node, ast.If) and isinstance(node.test, ast.BoolOp) and any(
+                    isinstance(v, ast.Compare) and U(v) in ('size > index', 'index < size') for v in node.test.values):
+                found = True
+                n += 1
+                ctx.bad(rule, q, 'candidate test has extra conditions: ' + U(node.test)[:80],
+                        'a length / initial n-gram that exists at a level within the budget must be tried; an extra pruning '
+                        'condition drops strings of the level', None, node)
+                continue
             if isinstance(node, ast.If) and isinstance(node.test, ast.Compare) and len(node.test.ops) == 1 \
                     and isinstance(node.test.ops[0], (ast.Gt, ast.Lt)) and 'index' in U(node.test) and ('size' in U(node.test) or 'len(' in U(node.test)):
                 found = True
